@@ -538,7 +538,7 @@ int cif_analyze_string(const UChar *str, int allow_unquoted, int allow_triple_qu
          * not contain both triple delimiters, or contain one and end with a substring of the other, all
          * provided that triple-quoting is permitted at all in the dialect we are writing.
          */
-        if (allow_triple_quoted && (this_line < (length_limit - 3)) && (first_line < (length_limit - 3))) {
+        if (allow_triple_quoted && (this_line < (length_limit - 3)) && (first_line <= (length_limit - 3))) {
             if ((str[length - 1] != apos3_delim[0]) && (u_strstr(str, apos3_delim) == NULL)) {
                 u_strcpy(result->delim, apos3_delim);
                 result->delim_length = 3;
